@@ -464,12 +464,18 @@ type parsedIDL struct {
 
 var idlMemo = map[string]*parsedIDL{}
 
-func parseIDL(idl string) *parsedIDL {
-	if p, ok := idlMemo[idl]; ok {
+func parseIDL(idl string) *parsedIDL { return parseIDLOpts(idl, thrift.Options{}) }
+
+func parseIDLOpts(idl string, o thrift.Options) *parsedIDL {
+	key := idl
+	if o != (thrift.Options{}) {
+		key = fmt.Sprintf("%+v|%s", o, idl)
+	}
+	if p, ok := idlMemo[key]; ok {
 		return p
 	}
 	p := &parsedIDL{}
-	svc, err := thrift.Options{}.NewDescritorFromContent(context.Background(), "a/b/main.thrift", idl, nil, false)
+	svc, err := o.NewDescritorFromContent(context.Background(), "a/b/main.thrift", idl, nil, false)
 	if err != nil {
 		p.err = err
 	} else if fn := svc.Functions()["M"]; fn == nil {
@@ -477,7 +483,7 @@ func parseIDL(idl string) *parsedIDL {
 	} else {
 		p.fn = fn
 	}
-	idlMemo[idl] = p
+	idlMemo[key] = p
 	return p
 }
 
@@ -522,7 +528,17 @@ func runRequest(s reqScenario) core.Result {
 		if exp.notJudged {
 			r.Class = "not-judged(raw text offered to map/struct)"
 		}
-		for _, entry := range []string{"BinaryConv.Do", "HTTPConv.Do", "BinaryConv.Do,request-served-another-query-before", "BinaryConv.Do,options-by-SetOptions"} {
+		for _, entry := range []string{"BinaryConv.Do", "HTTPConv.Do", "BinaryConv.Do,request-served-another-query-before", "BinaryConv.Do,options-by-SetOptions", "BinaryConv.Do,descriptor-parsed-with-SetOptionalBitmap"} {
+			reqDesc := reqDesc
+			if strings.HasSuffix(entry, "SetOptionalBitmap") {
+				// the same file parsed so that optional fields are tracked in the requires bitmap too
+				p2 := parseIDLOpts(idl, thrift.Options{SetOptionalBitmap: true})
+				if p2.err != nil {
+					r.Add("idl|"+listName(s.list)+"|parse-error", "%s (SetOptionalBitmap): %v", s, p2.err)
+					return
+				}
+				reqDesc = p2.fn.Request().Struct().FieldById(1).Type()
+			}
 			req, _, err := s.request()
 			if err != nil {
 				r.Add("harness|request|build-error", "%s: %v", s, err)
